@@ -17,7 +17,7 @@ from mc.util import Ctx, affine
 
 PROPERTY = "C19"
 RULE = (
-    "explicit-state BFS over sequences of public entry points sharing one set of caller-owned inputs: 51 operations (k-means "
+    "explicit-state BFS over sequences of public entry points sharing one set of caller-owned inputs: 53 operations (k-means "
     "fit numpy/dask/max_iter=0, transform, predict, cluster variances; GMM ML/MAP fit numpy/dask, acc_stats, transform, "
     "log-likelihood; statistics + and +=; linear_scoring with machines / arrays / offsets; ISV and JFA fit from list / bag / "
     "array / dask array, enroll, enroll_using_array, score (single, list), score_using_array, estimate_x/ux, transform; "
@@ -98,6 +98,10 @@ def _ops():
     def jfa(W):
         return JFAMachine(r_U=1, r_V=1, em_iterations=1, ubm=W.ubm, random_state=0, enroll_iterations=2)
 
+    def _seeded(f):
+        np.random.seed(5)
+        return f()
+
     def ivfit(W, X):
         np.random.seed(5)
         return IVectorMachine(W.ubm, dim_t=2, max_iterations=2).fit(X)
@@ -157,6 +161,10 @@ def _ops():
         "jfa_score_array": lambda W: (W.jfa.score_using_array(W.yz, W.frames[:2]), W.jfa.enroll_using_array(W.X)),
         "iv_fit": lambda W: ivfit(W, W.stats),
         "iv_fit_bag": lambda W: ivfit(W, db.from_sequence(W.stats, npartitions=2)),
+        "iv_fit_nosigma_floor": lambda W: _seeded(lambda: IVectorMachine(W.ubm, dim_t=2, max_iterations=2, update_sigma=False,
+                                                                          variance_floor=float(np.asarray(W.ubm.variances).max()) * 2).fit(W.stats)),
+        "iv_fit_sigma_floor": lambda W: _seeded(lambda: IVectorMachine(W.ubm, dim_t=2, max_iterations=2, update_sigma=True,
+                                                                        variance_floor=float(np.asarray(W.ubm.variances).max()) * 2).fit(W.stats)),
         "iv_project": lambda W: (W.iv.project(W.stats[0]), W.iv.transform(W.stats)),
         "wccn": lambda W: (lambda m: (m, m.transform(list(W.X[:3]))))(WCCN().fit(W.X, W.y)),
         "wccn_dask": lambda W: (lambda m: np.asarray(m.weights))(WCCN().fit(_da(W.X, (3, 2)), W.y)),
